@@ -42,21 +42,22 @@ def make_batch(rng, n, T, quick):
     return mems
 
 
-def run(run: Run):
-    run.run_audit()
+def adaptive(run, nb, prefix="c08", big=True):
+    """rounds 1 and 2 of the weight attacks: honest batches -> the weights read off the final product -> cancelling pairs, integer relations among
+    the weights, plain +-delta, and the requirement that a change of one response scalar changes every weight ratio involving its proof.
+    Used by C08 and, with a small budget, by C02 (a proof accepted inside a batch because the weights could be known in advance is a soundness break)."""
     rng = run.rng
     quick = run.tier == "quick"
-    nb = 14 if quick else 200
     batches = []
     for bi in range(nb):
         T = 1 + bi % 6
         n = rng.choice([2, 2, 3, 4, 8]) if bi % 5 else 2
-        if bi in (3, 8) or (not quick and bi % 9 == 4):
+        if big and (bi in (3, 8) or (not quick and bi % 9 == 4)):
             n = rng.choice([34, 40, 70])            # every position of a large chunk must be bound, not only the leading ones
         mems = make_batch(rng, n, T, quick)
         batches.append((bi, T, n, mems))
     # round 1: honest batches -> observe the weights
-    specs1 = [{"id": f"c08-h{bi}", "group": "fm", "members": mems, "with_gens": False,
+    specs1 = [{"id": f"{prefix}-h{bi}", "group": "fm", "members": mems, "with_gens": False,
                "verifies": [{"mode": VMODES[bi % 2], "vmembers": [gen.vmember(mm, i) for i, mm in enumerate(mems)]}]} for (bi, T, n, mems) in batches]
 
     observed = {}
@@ -74,11 +75,11 @@ def run(run: Run):
             run.violation(f"two proofs of one batch entered with the same weight", {"kind": "session", "spec": sessions.strip(s), "weights": [hex(w) for w in ws]})
         run.count(["honest", len(ws)], {"batch": len(ws), "weights_nonzero_distinct": True})
 
-    sessions.run_sessions(run, specs1, oracle1, relevant=32 | 128 | 8 | 4)
+    sessions.run_sessions(run, specs1, oracle1, relevant=32 | 128 | 8 | 4, name=prefix + "a")
     # round 2: adaptive cancelling pairs computed from the observed weights + response-scalar perturbations
     specs2 = []
     for (bi, T, n, mems) in batches:
-        ws = observed.get(f"c08-h{bi}")
+        ws = observed.get(f"{prefix}-h{bi}")
         if not ws:
             continue
         derived, verifies, tags = [], [], []
@@ -135,7 +136,7 @@ def run(run: Run):
             vm[who] = gen.vmember(mems[who], n + len(derived) - 1)
             verifies.append({"mode": amode, "vmembers": vm})
             tags.append(("ratio", who, f, idx))
-        specs2.append({"id": f"c08-a{bi}", "group": "fm", "members": mems, "derived": derived, "verifies": verifies, "_tags": tags, "_ws": ws,
+        specs2.append({"id": f"{prefix}-a{bi}", "group": "fm", "members": mems, "derived": derived, "verifies": verifies, "_tags": tags, "_ws": ws,
                        "_T": T, "with_gens": False})
 
     def oracle2(run, s, o):
@@ -174,7 +175,15 @@ def run(run: Run):
                 if res == "ok":
                     run.violation(f"batch accepted with an altered response scalar {tag[2]}[{tag[3]}]", rp)
 
-    sessions.run_sessions(run, specs2, oracle2, relevant=32 | 128 | 8 | 4, name="c08b")
+    sessions.run_sessions(run, specs2, oracle2, relevant=32 | 128 | 8 | 4, name=prefix + "b")
+
+
+def run(run: Run):
+    run.run_audit()
+    rng = run.rng
+    quick = run.tier == "quick"
+    nb = 14 if quick else 200
+    adaptive(run, nb)
     # round 3: batches in which members REPEAT (same statement, context and proof bytes several times).  A weight derivation that combines the
     # per-proof words with a self-inverse or order-blind operation makes the weights of such batches independent of the repeated proofs; the
     # adversary then reads the weights off one run and resubmits copies with defects that cancel over the groups of copies.
